@@ -20,7 +20,8 @@ import (
 // Parse parses one policy text through the public API and returns its AST.
 func Parse(src string) (*xast.Policy, error) {
 	var p cedar.Policy
-	if err := p.UnmarshalCedar([]byte(src)); err != nil {
+	// the input buffer is overwritten after the call (core.Scribbled)
+	if err := core.Scribbled([]byte(src), p.UnmarshalCedar); err != nil {
 		return nil, err
 	}
 	return (*xast.Policy)(p.AST()), nil
